@@ -149,5 +149,6 @@ func main() {
 		genString(p, *out)
 		genWf(p, *out)
 		genWire(p, *out)
+		genWireDec(p, *out)
 	}
 }
